@@ -25,15 +25,15 @@ CHECKS = {
             "Deterministic prefix plus seeded search; the selection is observed where it takes effect (the roots fed to the simulated rev-list) and in the census.", "4 C06", TRUSTED),
     "C07": ("exploration", "deterministic simulation: generated refgroup forests (real git config as peer) x reference sets, three output formats vs. recursive tally model",
             "Seeded search over refgroup forests up to 16 levels; git's own config listing is the input of the oracle.", "4 C07", TRUSTED),
-    "C09": ("exploration", "deterministic simulation, metamorphic: one world under >= 4 delivery schedules / root orders / storage layouts / commit dates; Graph-feed enumeration of every order",
+    "C09": ("exploration", "deterministic simulation, metamorphic: one world under >= 4 delivery schedules / root orders / storage layouts (loose, packed-refs, repacked, bitmapped pack + loose) / commit dates; Graph-feed enumeration of every order",
             "All numeric fields must agree across variants and with the model; small graphs are fed to sizes.Graph in every order.", "4 C09", TRUSTED),
-    "C10": ("fault_enumeration", "deterministic simulation with fault injection: every output offset x exit/signal of each simulated git process on small worlds, plus seeded fault sequences, one-shot failures through a git proxy, invalid input; real binary behind the proxy as second judge",
+    "C10": ("fault_enumeration", "deterministic simulation with fault injection: every output offset x exit/signal of each simulated git process on small worlds under three pipe regimes, every cut position of a cat-file --batch stream that ends early with exit status 0, plus seeded fault sequences, one-shot failures through a git proxy, invalid input, failing stdout; real binary behind the proxy as second judge",
             "Single-fault points of small worlds are enumerated completely (quick tier: bounded per world, thorough: complete); multi-fault sequences, chunking and delays are explored by seeded search; hangs are detected exactly by the fake-time watchdog.", "4 C10", TRUSTED + " Engine B samples real process semantics (exit statuses, signals) through /verif/bin/gitshim."),
     "C08": ("exploration", "deterministic simulation: adversarial delivery orders decide which witness and which path is recorded; model witness sets + real git rev-parse as judges",
             "Seeded search over worlds with objects reachable only through tags, tree/blob roots and hostile names, in all three formats and name styles; each cited id must be a witness in the model and each description must resolve with real git.", "4 C08", TRUSTED),
     "C11": ("exploration", "deterministic simulation used as a world supplier: the simulated disk steers measurements onto k*reference boundaries; relations across table / JSON v1 / JSON v2 and across thresholds",
             "Multi-run relations per world (three formats, 3-6 thresholds); exact rational arithmetic for visibility and concern markers; numerals checked against the JSON value by the half-unit rule. The property is a pure function of the measurement vector; the simulator adds worlds and run-to-run relations only.", "4 C11", TRUSTED),
-    "C13": ("exploration", "real-process simulation (engine B): the real binary behind a recording git proxy, started in 7-8 addressing modes on repositories with replace refs and grafts; model on the stored graph",
+    "C13": ("exploration", "real-process simulation (engine B): the real binary behind a recording git proxy, started in up to 14 addressing modes (incl. linked worktrees, symlinked cwd with logical $PWD, git -C) on repositories with replace refs, grafts and core.useReplaceRefs spelled out; model on the stored graph",
             "Seeded search over repositories x addressing modes with real git; no schedule is involved (environment configuration), so the technique contributes seeded worlds, the model and replayable scenarios.", "4 C13", TRUSTED + " Real git 2.39.5 semantics for replace refs, grafts, worktrees and shallow clones."),
     "C14": ("exploration", "deterministic simulation: paired CLI runs under one peer schedule, gitconfig answers from real git (a peer), progress compared on the fake clock",
             "Seeded search over config scopes x values (valid and invalid) x option sequences; every pair must agree byte for byte.", "4 C14", TRUSTED),
@@ -41,7 +41,7 @@ CHECKS = {
             "Seeded search over configuration contents; observed through tallies and --include=@G acceptance.", "4 C15", TRUSTED),
     "C16": ("exploration", "fault injection at the parser API (corruption faults on valid generated objects) + truncated listing streams through the real reader loops",
             "Seeded corruption of valid bodies (every truncation point for small objects) under recover and a watchdog; losslessness against the model's own parser. Coverage-guided fuzzing over all byte strings is not this technique and is not claimed.", "4 C16", TRUSTED),
-    "C17": ("exploration", "real-process simulation under the race detector (engine B at GOMAXPROCS 1/2/4/16 with proxy jitter) + in-process -race runs under different chunk/delay plans; repository digest before/after",
+    "C17": ("exploration", "real-process simulation under the race detector (engine B: -race at GOMAXPROCS 1/16, plain binary x12 at GOMAXPROCS 2-16 with proxy jitter and slowed config lookups) + in-process -race runs under different chunk/delay plans; repository digest before/after",
             "Sampled schedules, not decided ones: the Go scheduler and the OS choose the interleaving inside git-sizer; the race detector is happens-before based, so it needs the accesses to occur, not a lucky interleaving.", "4 C17", TRUSTED + " Go race detector."),
     "C18": ("exploration", "deterministic simulation of the progress meter: baton scheduler over worker / ticker goroutines parked at hook H1 / fake clock, online invariants on every frame; whole-system runs with peers slowed on the fake clock",
             "Seeded search over schedules including the window 'tick received, lock not yet taken' for current and stale tickers; about 10^4 schedules per second.", "4 C18", TRUSTED + " Hook H1 (build tag verif) in meter/meter.go."),
